@@ -8,8 +8,11 @@ import (
 	"sync"
 	"time"
 
+	dcss "github.com/aymerick/douceur/css"
+	"github.com/aymerick/douceur/parser"
 	"github.com/microcosm-cc/bluemonday"
 	"github.com/microcosm-cc/bluemonday/css"
+	"golang.org/x/net/html"
 )
 
 // ---- C14: no panic, no blow-up --------------------------------------------------------------------------
@@ -47,6 +50,13 @@ func c14Mode(args []string) {
 	}
 	b1Policies := append(handPolicies(), linkOff("c14-nofollow-off", "nofollow"), linkOff("c14-nofollowfq-off", "nofollowfq"), linkOff("c14-noreferrer-off", "noreferrer"),
 		linkOff("c14-noreferrerfq-off", "noreferrerfq"), linkOff("c14-targetblank-off", "targetblank"))
+	// (0) every entry point, also with destinations that lack WriteString and readers that deliver one byte at a time,
+	// each call in a process of its own: a fatal error of the runtime is not recoverable
+	c14Isolated(sum, *budget)
+	if len(sum.OracleFails) > 0 {
+		sum.emit()
+		return
+	}
 	// (a) adversarial size-parameterised families through the default CSS handlers
 	props := []string{"text-decoration", "text-decoration-line", "font-family", "font", "background", "border", "animation", "transition",
 		"grid-template-columns", "grid-template-rows", "background-position", "background-size", "box-shadow", "text-shadow", "flex-flow",
@@ -89,7 +99,7 @@ sweep:
 			}
 		}
 	}
-	sum.Distribution["css-families"] = sum.Evaluations
+	sum.Distribution["css-families"] = sum.Evaluations - sum.Distribution["isolated-calls"]
 	// (b) deep nesting, long attribute lists, long escape chains
 	big := []string{strings.Repeat("<a>", 20000) + strings.Repeat("</a>", 20000), "<p " + strings.Repeat("x=y ", 20000) + ">",
 		`<p style="color: ` + strings.Repeat("\\5c ", 5000) + `">`, strings.Repeat("<object>", 5000), strings.Repeat("&", 100000), strings.Repeat("<!--", 30000),
@@ -341,6 +351,199 @@ func c17Mode(args []string) {
 			}
 			if len(sum.OracleFails) > 12 {
 				goto done
+			}
+		}
+	}
+	// rules accumulate: one more attribute or style rule never takes away what the policy kept before.  (Two lookups of the
+	// implementation are "explicit entry, else patterns": a rule on a named element hides the pattern rules for that element, so
+	// a rule on named elements is only added to policies without pattern-scoped rules of that kind; and the first style rule that
+	// reaches an element switches its style attribute from an ordinary attribute to a filtered one, so style is compared only when
+	// the element had style rules before.)
+	for i := 0; i < *nPol; i++ {
+		base := randPolicy(rng, false)
+		// every other round: two rules for the same names in (usually) different scopes with different matchers, and documents
+		// that use exactly those names on the elements concerned
+		var focusNames, focusEls []string
+		focusKind := ""
+		if i%2 == 0 {
+			focusEls = pickN(rng, []string{"p", "span", "b", "i", "a-x", "custom-x", "div"}, 3)
+			base.Ops = append(base.Ops, Op{Kind: "elements", Names: focusEls})
+			var o Op
+			if i%4 == 0 {
+				focusKind = "styles"
+				focusNames = pickN(rng, []string{"color", "width", "float", "background", "text-align"}, 1+rng.Intn(2))
+				o = Op{Kind: "styles", Names: focusNames}
+				switch rng.Intn(3) {
+				case 0:
+					o.Enum = pickN(rng, []string{"red", "Blue", "left", "1px", "none", "center"}, 1+rng.Intn(2))
+				case 1:
+					o.Re = pick(rng, []string{`^[a-z]+$`, `^[0-9]+px$`, `red`})
+				}
+			} else {
+				focusKind = "attrs"
+				focusNames = pickN(rng, []string{"id", "title", "class", "dir", "lang", "width"}, 1+rng.Intn(2))
+				o = Op{Kind: "attrs", Names: focusNames}
+				if rng.Intn(2) == 0 {
+					o.Re = pick(rng, []string{`^[a-z]+$`, `^[0-9]+$`, `^x`, `(?i)^(rtl|ltr)$`})
+				}
+			}
+			switch rng.Intn(3) {
+			case 0:
+				o.Scope = "G"
+			case 1:
+				o.Scope, o.ScopeEls = "E", pickN(rng, focusEls, 1+rng.Intn(2))
+			default:
+				o.Scope, o.ScopeRe = "M", pick(rng, []string{`^(b|i)$`, `^[a-z]+-x$`, `^custom-`, `^[a-z]`})
+			}
+			base.Ops = append(base.Ops, o)
+		}
+		hasM := map[string]bool{}
+		for _, o := range base.Ops {
+			if o.Scope == "M" && len(o.Names) > 0 {
+				hasM[o.Kind] = true
+			}
+		}
+		var r Op
+		if rng.Intn(2) == 0 {
+			r = Op{Kind: "attrs", Names: pickN(rng, attrVocab, 1+rng.Intn(2))}
+			if rng.Intn(3) == 0 {
+				r.Re = pick(rng, rxVocab)
+			}
+		} else {
+			r = Op{Kind: "styles", Names: pickN(rng, propVocab, 1+rng.Intn(2))}
+			switch rng.Intn(4) {
+			case 0:
+				r.Re = pick(rng, []string{`^[a-z]+$`, `^[0-9]+px$`, `red`})
+			case 1:
+				r.Enum = pickN(rng, []string{"red", "Blue", "left", "1px", "none"}, 1+rng.Intn(2))
+			case 2:
+				r.Handler = pick(rng, []string{"short", "hasred"})
+			}
+		}
+		if focusKind != "" {
+			r = Op{Kind: focusKind, Names: focusNames}
+			switch rng.Intn(3) {
+			case 0:
+				if focusKind == "styles" {
+					r.Enum = pickN(rng, []string{"red", "Blue", "left", "1px", "none", "center"}, 1+rng.Intn(2))
+				} else {
+					r.Re = pick(rng, []string{`^[a-z]+$`, `^[0-9]+$`, `^x`})
+				}
+			case 1:
+				r.Re = pick(rng, []string{`^[a-z]+$`, `^[0-9]+px$`, `^#[0-9a-f]+$`})
+			}
+		}
+		for {
+			r.Scope, r.ScopeEls, r.ScopeRe = "", nil, ""
+			randScope(rng, &r)
+			if focusKind != "" && r.Scope == "E" {
+				r.ScopeEls = pickN(rng, focusEls, 1+rng.Intn(2))
+			}
+			if !(r.Scope == "E" && hasM[r.Kind]) {
+				break
+			}
+		}
+		more := &PolicySpec{Ops: append([]Op{}, base.Ops...)}
+		at := rng.Intn(len(more.Ops) + 1)
+		more.Ops = append(more.Ops[:at], append([]Op{r}, more.Ops[at:]...)...)
+		pa, pb := base.buildGo(), more.buildGo()
+		g := newDocGen(rng, more)
+		for j := 0; j < *nDoc; j++ {
+			var doc string
+			if focusKind != "" && j%4 != 3 {
+				vals := []string{"red", "blue", "left", "1px", "10px", "none", "center", "#fff", "x1", "12", "rtl", "v"}
+				if focusKind == "styles" {
+					var ds []string
+					for k := 0; k < 1+rng.Intn(2); k++ {
+						ds = append(ds, pick(rng, focusNames)+": "+pick(rng, vals))
+					}
+					doc = "<" + pick(rng, focusEls) + " style=\"" + strings.Join(ds, "; ") + "\" id=\"k\">t"
+				} else {
+					doc = "<" + pick(rng, focusEls) + " " + pick(rng, focusNames) + "=\"" + pick(rng, vals) + "\" " + pick(rng, focusNames) + "=\"" + pick(rng, vals) + "\">t"
+				}
+			} else if j%2 == 0 {
+				doc = g.startTag(pick(rng, g.elems), false) + "t"
+			} else {
+				doc = "<" + pick(rng, g.elems) + " style=\"" + html.EscapeString(pick(rng, styleCorpus(rng, 2))) + "\" " + renderAttr(rng, pick(rng, g.attrs), "v") + ">t"
+			}
+			in := goTokens(doc)
+			if len(in) == 0 || in[0].Type != html.StartTagToken {
+				continue
+			}
+			el := in[0].Data
+			first := func(out string) *html.Token {
+				for _, tk := range goTokens(out) {
+					if tk.Type == html.StartTagToken && tk.Data == el {
+						return &tk
+					}
+				}
+				return nil
+			}
+			sum.Evaluations++
+			oa, ob := pa.Sanitize(doc), pb.Sanitize(doc)
+			ta, tb := first(oa), first(ob)
+			if ta == nil {
+				continue
+			}
+			l0, g0 := styleRulesFor(base, el)
+			styled := len(l0) > 0 || len(g0) > 0
+			if !styled && r.Kind == "styles" {
+				continue // the first style rule for this element: its style attribute is filtered from now on (and may take the tag with it)
+			}
+			distinct[oa] = true
+			lost := ""
+			if tb == nil {
+				lost = "the element"
+			} else {
+				for _, a := range ta.Attr {
+					switch a.Key {
+					case "rel", "target", "sandbox", "crossorigin":
+						continue
+					case "style":
+						if !styled {
+							continue
+						}
+						da, ea := parser.ParseDeclarations(a.Val + ";")
+						var db []*dcss.Declaration
+						var eb error
+						for _, b := range tb.Attr {
+							if b.Key == "style" && b.Val != "" {
+								ds, e := parser.ParseDeclarations(b.Val + ";")
+								if e != nil {
+									eb = e
+								}
+								db = append(db, ds...)
+							}
+						}
+						if ea != nil || eb != nil {
+							continue
+						}
+						for _, d := range da {
+							found := false
+							for _, e := range db {
+								found = found || (e.Property == d.Property && e.Value == d.Value)
+							}
+							if !found {
+								lost = "the style declaration " + d.Property + ": " + d.Value
+							}
+						}
+						continue
+					}
+					found := false
+					for _, b := range tb.Attr {
+						found = found || b == a
+					}
+					if !found {
+						lost = "the attribute " + a.Key + "=" + a.Val
+					}
+				}
+			}
+			if lost != "" {
+				sum.OracleFails = append(sum.OracleFails, map[string]any{"kind": "rule-replaces", "clause": "one more rule-adding builder call takes away what the policy kept before", "lost": lost,
+					"policy": base, "added_rule": r, "input_hex": hexOf(doc), "input_text": doc, "output": oa, "other": ob})
+				if len(sum.OracleFails) > 12 {
+					goto done
+				}
 			}
 		}
 	}
